@@ -3,7 +3,7 @@
 # applies seeded/<id>/patch.diff to a private copy of /repo and runs the property's check (then the fallback
 # checks) until one reports a VIOLATION; writes the outcome into seeded/<id>/meta.json ("final_check_result").
 lane="$1"; shift
-declare -A FALL=( [C05]="C04" [C12]="C02 C15 C01" [C16]="C04 C13" [C01]="C10 C12" [C13]="C09" [C14]="C13 C05" [C17]="C04" [C18]="C09 C10" [C11]="C03" [C09]="C03" [C15]="C02" [C02]="C06 C12" [C03]="C02 C09 C11" [C04]="C05" [C06]="C19" [C19]="C08" [C08]="C19" )
+declare -A FALL=( [C05]="C04" [C12]="C02 C15 C01" [C16]="C04 C13" [C01]="C10 C12" [C13]="C09" [C14]="C13 C05" [C17]="C04" [C18]="C13 C09 C10" [C11]="C03" [C09]="C03" [C15]="C02" [C02]="C06 C12" [C03]="C02 C09 C11" [C04]="C05" [C06]="C19" [C19]="C08" [C08]="C19" )
 for id in "$@"; do
   d=/verif/seeded/$id; prop=${id%%-*}
   /verif/tools/mutenv.sh $lane --reset-repo >/dev/null
